@@ -239,12 +239,15 @@ TRIVIAL = re.compile(r"^(err|dec=err|parent=err|decerr|skip|bad-op)$")
 def impl_predicates(pid, op, impl):
     """property predicates on the implementation's own output (independent of the model)"""
     hits = []
+    f = op.split()
     if impl in ("panic", "timeout", "crash") or " dec=panic" in impl:
         hits.append(("C06", "implementation panicked / timed out"))
     if "MUTATED" in impl:
         hits.append(("C18", "a read-only operation modified its argument"))
     if "bytes-with-error" in impl or "value-with-error" in impl or "message-with-error" in impl:
         hits.append(("C20", "bytes / value returned together with an error"))
+    if f and f[0] == "keyuse" and impl.startswith("dec=ok") and (" redec=err" in impl or " redec=unstable" in impl or " reenc=err" in impl):
+        hits.append(("C15", "an accepted COSE_Key does not re-encode to bytes that decode to the same canonical bytes"))
     if "BAD-STRUCTURE(" in impl:
         hits.append(("C05", "a decoder accepted an input that does not have the structure C05 demands: " + impl[impl.index("BAD-STRUCTURE("):][:120]))
     if "TAGGED-LABEL" in impl:
